@@ -26,6 +26,28 @@ theorem loadRaw_hash_compared :
     c.count "loadRaw" = 2 ∧ c.count "restic.Hash" = 2 ∧
     c.idxOf "loadRaw" < c.idxOf "restic.Hash" ∧ c.idxOf "restic.Hash" < c.idxOf "r.cache.Forget" := by decide
 
+/-- calls that cannot influence a decision (logging, formatting, conversions) -/
+def inert : List String :=
+  ["debug.Log", "fmt.Errorf", "fmt.Sprintf", "errors.Errorf", "errors.New", "backend.FileType", "id.String",
+   "b.packID.String", "int", "len"]
+
+def decisive (c : List String) : List String := c.filter fun s => !(inert.contains s)
+
+/-- `LoadRaw` consults NOTHING but the two loads and the two hash computations (and drops the
+    cache entry in between): in particular no cache query decides whether the hash is compared.
+    (Any additional non-logging call in `LoadRaw` makes this obligation fail and is to be reviewed.) -/
+theorem loadRaw_only_loads_and_hashes :
+    decisive Restic.Gen.repo_LoadRaw_calls = ["loadRaw", "restic.Hash", "r.cache.Forget", "loadRaw", "restic.Hash"] := by
+  decide
+
+/-- `packBlobIterator.Next`: between decryption / decompression and the comparison with the entry's
+    ID there is exactly the hash computation — no shortcut, no other source for the ID. -/
+theorem next_always_hashes :
+    decisive Restic.Gen.repo_Next_calls =
+      ["b.rd.Discard", "b.rd.ReadFull", "b.key.NonceSize", "b.key.NonceSize", "b.key.NonceSize", "b.key.Open",
+       "entry.IsCompressed", "b.dec.DecodeAll", "restic.Hash", "id.Equal"] := by
+  decide
+
 /-- `packBlobIterator.Next`: decrypt, (decompress,) then hash and compare with the entry's ID. -/
 theorem next_hash_compared :
     let c := Restic.Gen.repo_Next_calls
@@ -298,6 +320,25 @@ theorem zero_shortcut_eq (hash : Bytes → ID) (buf : Bytes) (hl : buf.length = 
   have := eq_replicate_of_takeWhile_len buf hz
   unfold zeroChunk
   rw [← hl, ← this]
+
+/-- What a READ-side shortcut would have to check (the unchanged `Next` has none, see
+    `next_always_hashes`): "entry ID is the zero-chunk ID and the plaintext is all zeros" identifies
+    the plaintext only together with `len = MinSize`. Without the length test the conclusion is
+    false for every hash function that separates two all-zero strings (`read_shortcut_needs_length`). -/
+theorem read_shortcut_sound (hash : Bytes → ID) (id : ID) (p : Bytes) (hid : id = zeroChunk hash)
+    (hl : p.length = minSize) (hz : zeroPrefixLen p = p.length) : hash p = id := by
+  rw [hid, zero_shortcut_eq hash p hl (by rw [hz, hl])]
+
+theorem read_shortcut_needs_length (hash : Bytes → ID) (k : Nat)
+    (hsep : hash (List.replicate k 0) ≠ hash (List.replicate minSize 0)) :
+    ∃ p : Bytes, zeroPrefixLen p = p.length ∧ hash p ≠ zeroChunk hash := by
+  refine ⟨List.replicate k 0, ?_, hsep⟩
+  rw [zeroPrefixLen_eq]
+  have : (List.replicate k (0 : UInt8)).takeWhile (· == 0) = List.replicate k 0 := by
+    induction k with
+    | zero => rfl
+    | succ n _ => simp [List.replicate_succ]
+  rw [this]
 
 /-! ### saving: addresses -/
 
